@@ -2,7 +2,7 @@
    order-independent specification of an acceptable chunk set.  Definitions only.
    The sort (slice::sort_unstable_by_key) and the payload decoder (PwbV2Packet::try_from(&[u8]), modelled
    elsewhere) are Section variables. *)
-From Coq Require Import Sorting.Permutation.
+From Coq Require Import Sorting.Permutation Sorting.Sorted.
 From AG Require Import Base.Prelude Base.Res Base.Bytes Codec.Chunk.
 
 (* error kinds of TryPwbPacketFromChunksError; the two `position` payloads are kept, found/expected are not *)
@@ -112,6 +112,11 @@ Fixpoint insert_by_id (c : chunk) (l : list chunk) : list chunk :=
   | x :: t => if c_id c <=? c_id x then c :: l else x :: insert_by_id c t
   end.
 Definition isort_by_id (l : list chunk) : list chunk := fold_right insert_by_id [] l.
+
+(* what is assumed of slice::sort_unstable_by_key: the result is a permutation of the input, sorted by the key.
+   Nothing is assumed about the relative order of chunks with equal ids. *)
+Definition admissible_sort (sortF : list chunk -> list chunk) : Prop :=
+  (forall l, Permutation l (sortF l)) /\ (forall l, Sorted.Sorted (fun a b => c_id a <= c_id b) (sortF l)).
 
 (* ---------- specification: an acceptable set of chunks, independent of any order ---------- *)
 Fixpoint nseq_from (i : N) (n : nat) : list N :=
